@@ -217,6 +217,15 @@ func fragNested(g *Gen, n int, o *Out) {
 			continue
 		}
 		o.count("nested:" + op[0] + ":" + norm(rq))
+		// C07: the same expression with every selector (the quantified collections, also the inner
+		// one that goes through the outer alias) spelled dotted/bracketed and as JSON pointers
+		if allPathsBoth(outer) {
+			r1, t1, ok1 := evalG(g, o, nil, setStyle(outer, 1), d)
+			r2, t2, ok2 := evalG(g, o, nil, setStyle(outer, 2), d)
+			if ok1 && ok2 && (r1 != r2 || r1 != rq) {
+				o.finding(Finding{Property: "C07", Kind: "failing-input", What: fmt.Sprintf("nested quantifier: dotted/bracket spelling gives %s, pointer spelling %s, mixed %s", r1, r2, rq), Request: lastReq(o), Detail: fmt.Sprintf("%q vs %q", t1, t2)})
+			}
+		}
 		un, ok := unrollAll(d, outer)
 		if !ok {
 			o.count("nested:not-unrollable")
